@@ -42,6 +42,89 @@ fn part_for(rng: &mut Rng, style: u64, tid: usize) -> String {
     }
 }
 
+// T threads draw names while U threads run the other public function that draws them (serialize::test with
+// remove = true: it serializes a small value into a temporary file, loads it back and removes the file)
+fn mixed(rng: &mut Rng, out: &mut Out, t: usize, k: usize, u: usize) {
+    let tmp = std::env::temp_dir();
+    let pid = std::process::id() as u64;
+    let style = rng.below(5);
+    let parts: Vec<String> = (0..t).map(|tid| part_for(rng, style, tid)).collect();
+    let sentinel = serialize::temp_file_name("sentinel");
+    let start = match parse_count(&sentinel) {
+        Some(c) => c.wrapping_add(1),
+        None => u64::MAX,
+    };
+    let barrier = Arc::new(Barrier::new(t + u));
+    let stop = Arc::new(std::sync::atomic::AtomicBool::new(false));
+    let mut handles = Vec::new();
+    for tid in 0..t {
+        let bar = Arc::clone(&barrier);
+        let part = parts[tid].clone();
+        handles.push(thread::spawn(move || {
+            let mut v: Vec<PathBuf> = Vec::with_capacity(k);
+            bar.wait();
+            for i in 0..k {
+                v.push(serialize::temp_file_name(&part));
+                if i % 64 == 0 {
+                    thread::yield_now();
+                }
+            }
+            v
+        }));
+    }
+    let mut others = Vec::new();
+    for uid in 0..u {
+        let bar = Arc::clone(&barrier);
+        let st = Arc::clone(&stop);
+        // the same name parts as the observed threads use, so that a reissued number gives an equal path
+        let part = parts[uid % t].clone();
+        others.push(thread::spawn(move || {
+            let value: Vec<u64> = vec![uid as u64; 3];
+            let mut n = 0u64;
+            bar.wait();
+            while !st.load(std::sync::atomic::Ordering::SeqCst) {
+                let _ = serialize::test(&value, &part, Some(4), true);
+                n += 1;
+            }
+            n
+        }));
+    }
+    let per_thread: Vec<Vec<PathBuf>> = handles.into_iter().map(|h| h.join().unwrap()).collect();
+    stop.store(true, std::sync::atomic::Ordering::SeqCst);
+    let ntest: u64 = others.into_iter().map(|h| h.join().unwrap()).sum();
+    let mut counts: Vec<u64> = Vec::with_capacity(t * k);
+    let (mut in_tmp, mut has_part, mut parsed, mut distinct) = (true, true, true, true);
+    let mut set: HashSet<PathBuf> = HashSet::with_capacity(t * k);
+    for (tid, v) in per_thread.iter().enumerate() {
+        for p in v.iter() {
+            match parse_count(p) {
+                Some(c) => counts.push(c),
+                None => parsed = false,
+            }
+            if p.parent() != Some(tmp.as_path()) {
+                in_tmp = false;
+            }
+            if !p.file_name().and_then(|f| f.to_str()).map(|f| f.contains(parts[tid].as_str())).unwrap_or(false) {
+                has_part = false;
+            }
+            if !set.insert(p.clone()) {
+                distinct = false;
+            }
+        }
+    }
+    counts.sort_unstable();
+    let runs = rle(&counts);
+    out.stat("mixed.runs");
+    out.stat_n("mixed.calls_total", (t * k) as u64);
+    out.stat_n("mixed.other_calls", ntest);
+    let runs_s: Vec<String> = runs.iter().map(|(s, l)| format!("({}, {})", s, l)).collect();
+    let term = format!("CMixed {} {} {} {} {} {} [{}] {} {} {}", t, k, start, pid, u, ntest, runs_s.join("; "), b(in_tmp), b(has_part && parsed), b(distinct));
+    let shown: Vec<String> = runs.iter().take(40).map(|(s, l)| format!("[{},{}]", s, l)).collect();
+    let json = format!("{{\"threads\":{},\"calls\":{},\"start\":{},\"pid\":{},\"test_threads\":{},\"test_calls\":{},\"runs_first_40\":[{}],\"in_tmp\":{},\"has_part\":{},\"distinct\":{}}}",
+        t, k, start, pid, u, ntest, shown.join(","), in_tmp, has_part && parsed, distinct);
+    out.case("mixed", term, json, true);
+}
+
 pub fn run(rng: &mut Rng, out: &mut Out, thorough: bool, _variant: &str) {
     let tmp = std::env::temp_dir();
     let pid = std::process::id() as u64;
@@ -56,6 +139,9 @@ pub fn run(rng: &mut Rng, out: &mut Out, thorough: bool, _variant: &str) {
             }
         }
         grid.push((4, 17000));
+        for &(t, k, u) in [(1usize, 3000usize, 1usize), (2, 3000, 2), (4, 2000, 4), (8, 1000, 3)].iter() {
+            mixed(rng, out, t, k, u);
+        }
         for &(t, k) in grid.iter() {
             {
                 let style = rng.below(5);
